@@ -1048,6 +1048,10 @@ pub struct CorruptStats {
 	pub mutations_err: u64,
 	pub mutations_ok_same: u64,
 	pub mutations_ok_other: u64,
+	/// survey mode: record findings instead of failing
+	pub survey: bool,
+	pub findings: BTreeMap<String, u64>,
+	pub examples: Vec<String>,
 }
 
 /// Run the corruption oracles (e) and (f) on one harvested encoding.
@@ -1105,32 +1109,60 @@ pub fn corrupt_object(cx: &Corruptor, bytes: &[u8], odd_value: &[u8], cuts: &[u3
 			return Err(fail("strict-prefix", format!("strict-prefix/{}", kind), format!("the first {} of {} bytes of a {} read successfully", cut, bytes.len(), kind)));
 		}
 	}
-	// (f) single-byte mutations
+	// (f) single-byte mutations: Err, or an object that itself round-trips; a panic anywhere on the way is
+	// classified by its location
 	for (pos, xor) in muts {
 		let p = *pos as usize % bytes.len();
 		let mut m = bytes.to_vec();
 		m[p] ^= (*xor).max(1);
-		let got = cx.read(&m);
-		match &got {
-			ReadOutcome::Err(_) => st.mutations_err += 1,
-			_ => {
-				// (no `==` against the original here: LDK's equality debug-asserts internal consistency of cached
-				// transactions, which a value-level corruption may break without making the encoding invalid)
-				let re = match &got {
-					ReadOutcome::Monitor(m) => m.encode(),
-					ReadOutcome::Update(u) => u.encode(),
-					ReadOutcome::Manager(_, b) => b.clone(),
-					ReadOutcome::Err(_) => vec![],
-				};
-				if same_bytes_modulo_order(&re, bytes) {
+		let saved = vcore::take_last_panic();
+		let r = std::panic::catch_unwind(std::panic::AssertUnwindSafe(|| {
+			let got = cx.read(&m);
+			match &got {
+				ReadOutcome::Err(_) => (0u8, Ok(())),
+				_ => {
+					let re = match &got {
+						ReadOutcome::Monitor(m) => m.encode(),
+						ReadOutcome::Update(u) => u.encode(),
+						ReadOutcome::Manager(_, b) => b.clone(),
+						ReadOutcome::Err(_) => vec![],
+					};
+					// (no `==` against the original here: LDK's equality debug-asserts internal consistency of
+					// cached transactions, which a value-level corruption may break without making the encoding
+					// invalid)
+					let same = same_bytes_modulo_order(&re, bytes);
+					(if same { 1 } else { 2 }, cx.roundtrips(&got))
+				},
+			}
+		}));
+		let finding: Option<(String, String)> = match r {
+			Ok((0, _)) => {
+				st.mutations_err += 1;
+				None
+			},
+			Ok((c, rt)) => {
+				if c == 1 {
 					st.mutations_ok_same += 1;
 				} else {
 					st.mutations_ok_other += 1;
 				}
-				if let Err(e) = cx.roundtrips(&got) {
-					return Err(fail("mutation-roundtrip", format!("mutation-roundtrip/{}", kind), format!("{} byte {} ^ {:#x}: {}", kind, p, xor, e)));
-				}
+				rt.err().map(|e| (format!("mutation-roundtrip/{}/{}", kind, e.rsplit(": ").next().unwrap_or("")), format!("{} byte {} of {} ^ {:#x}: {}", kind, p, bytes.len(), xor, e)))
 			},
+			Err(_) => {
+				let (msg, loc) = vcore::take_last_panic().unwrap_or_default();
+				let loc_short = loc.rsplit("/lightning/src/").next().unwrap_or(&loc).to_string();
+				Some((format!("mutation-panic/{}@{}", kind, loc_short), format!("{} byte {} of {} ^ {:#x}: panic at {}: {}", kind, p, bytes.len(), xor, loc, msg.chars().take(200).collect::<String>())))
+			},
+		};
+		vcore::set_last_panic(saved);
+		if let Some((key, detail)) = finding {
+			if st.survey {
+				*st.findings.entry(key).or_insert(0) += 1;
+				st.examples.push(detail);
+			} else {
+				let oracle = if key.starts_with("mutation-panic") { "mutation-panic" } else { "mutation-roundtrip" };
+				return Err(fail(oracle, key, detail));
+			}
 		}
 	}
 	Ok(())
